@@ -728,3 +728,455 @@ Proof.
   destruct (o_env_file o); [|discriminate]. unfold parse_env_file in E.
   apply parse_env_spec in E. tauto.
 Qed.
+
+(* ------------------------------------------------------------------ the run *)
+
+(* laws of the dispatcher interface (safety): a cancelled dispatcher refuses every start
+   request and stays cancelled; a non-success SetupScriptFinished cancels the run and is
+   counted; the count never decreases; a positive count gives exit status 105.
+   For the dispatcher model these are C10_no_new_units / C10_monotone (refusal, stickiness),
+   the SetupScriptFinished arm of dstep (begin_cancel SetupScriptFailure, on_script_finished)
+   and C01_codes (105). *)
+Record disp_laws (D : disp) : Prop := {
+  law_start_refused : forall d, d_cancelled D d = true -> snd (d_unit_start D d) = false;
+  law_start_sticky : forall d,
+      d_cancelled D d = true -> d_cancelled D (fst (d_unit_start D d)) = true;
+  law_start_count : forall d,
+      d_failed_scripts D d <= d_failed_scripts D (fst (d_unit_start D d));
+  law_finish_cancels : forall d r,
+      is_success r = false -> d_cancelled D (d_script_finished D d r) = true;
+  law_finish_counted : forall d r,
+      is_success r = false -> 0 < d_failed_scripts D (d_script_finished D d r);
+  law_finish_sticky : forall d r,
+      d_cancelled D d = true -> d_cancelled D (d_script_finished D d r) = true;
+  law_finish_count : forall d r,
+      d_failed_scripts D d <= d_failed_scripts D (d_script_finished D d r);
+  law_exit_105 : forall d, 0 < d_failed_scripts D d -> d_exit D d = 105%Z }.
+
+(* ... and liveness in the closed world of these three events (no signal, no test failure):
+   a dispatcher that is not cancelled accepts a start request and stays uncancelled, also
+   after a successful script *)
+Record disp_live (D : disp) : Prop := {
+  live_start : forall d, d_cancelled D d = false ->
+      snd (d_unit_start D d) = true /\ d_cancelled D (fst (d_unit_start D d)) = false;
+  live_finish : forall d r, d_cancelled D d = false -> is_success r = true ->
+      d_cancelled D (d_script_finished D d r) = false }.
+
+Definition script_result (outs : sid -> outcome) (ss : setup_script) : exec_result :=
+  fst (finish_script (outs (ss_id ss))).
+Definition script_events (outs : sid -> outcome) (ss : setup_script) : list event :=
+  [EvScriptStarted (ss_id ss); EvScriptFinished (ss_id ss) (script_result outs ss)].
+Definition env_entry (outs : sid -> outcome) (ss : setup_script) : run_data :=
+  match snd (finish_script (outs (ss_id ss))) with Some m => [(ss, m)] | None => [] end.
+
+(* the scripts whose start request was accepted, and the dispatcher state after the loop *)
+Fixpoint ran (D : disp) (d : d_state D) (scripts : list setup_script) (outs : sid -> outcome)
+  : list setup_script :=
+  match scripts with
+  | [] => []
+  | ss :: rest =>
+      let d1 := fst (d_unit_start D d) in
+      if snd (d_unit_start D d)
+      then ss :: ran D (d_script_finished D d1 (script_result outs ss)) rest outs
+      else ran D d1 rest outs
+  end.
+Fixpoint scripts_state (D : disp) (d : d_state D) (scripts : list setup_script)
+         (outs : sid -> outcome) : d_state D :=
+  match scripts with
+  | [] => d
+  | ss :: rest =>
+      let d1 := fst (d_unit_start D d) in
+      if snd (d_unit_start D d)
+      then scripts_state D (d_script_finished D d1 (script_result outs ss)) rest outs
+      else scripts_state D d1 rest outs
+  end.
+
+Lemma run_scripts_eq D scripts outs : forall d data,
+  run_scripts D d scripts outs data =
+  (scripts_state D d scripts outs,
+   flat_map (script_events outs) (ran D d scripts outs),
+   data ++ flat_map (env_entry outs) (ran D d scripts outs)).
+Proof.
+  induction scripts as [|ss rest IH]; intros d data; cbn [run_scripts ran scripts_state flat_map].
+  - rewrite app_nil_r. reflexivity.
+  - destruct (d_unit_start D d) as [d1 acc] eqn:Es. cbn [fst snd]. destruct acc.
+    + unfold script_result, env_entry at 1.
+      destruct (finish_script (outs (ss_id ss))) as [r em] eqn:Ef. cbn [fst snd].
+      rewrite IH. cbn [flat_map script_events app]. unfold script_result. rewrite Ef. cbn [fst].
+      destruct em as [m|]; cbn [app]; [rewrite <- app_assoc|]; reflexivity.
+    + apply IH.
+Qed.
+
+(* the tests whose start request was accepted, and the state after them *)
+Fixpoint started_tests (D : disp) (d : d_state D) (reqs : list tquery) : list tquery :=
+  match reqs with
+  | [] => []
+  | t :: rest =>
+      let d1 := fst (d_unit_start D d) in
+      if snd (d_unit_start D d) then t :: started_tests D d1 rest else started_tests D d1 rest
+  end.
+Fixpoint tests_state (D : disp) (d : d_state D) (reqs : list tquery) : d_state D :=
+  match reqs with
+  | [] => d
+  | t :: rest => tests_state D (fst (d_unit_start D d)) rest
+  end.
+
+Lemma run_tests_eq D data reqs : forall d,
+  run_tests D d data reqs =
+  (tests_state D d reqs,
+   map (fun t => EvTestStarted t (apply_env data t [])) (started_tests D d reqs)).
+Proof.
+  induction reqs as [|t rest IH]; intros d; cbn [run_tests started_tests tests_state map].
+  - reflexivity.
+  - destruct (d_unit_start D d) as [d1 acc]. cbn [fst snd]. rewrite IH.
+    destruct acc; reflexivity.
+Qed.
+
+Definition run_scripts_ran D d0 defs rules sel outs : list setup_script :=
+  ran D d0 (enabled defs rules sel) outs.
+Definition run_data_of D d0 defs rules sel outs : run_data :=
+  flat_map (env_entry outs) (run_scripts_ran D d0 defs rules sel outs).
+
+Lemma run_eq D d0 defs rules sel outs reqs :
+  run D d0 defs rules sel outs reqs =
+  (tests_state D (scripts_state D d0 (enabled defs rules sel) outs) reqs,
+   flat_map (script_events outs) (run_scripts_ran D d0 defs rules sel outs)
+   ++ map (fun t => EvTestStarted t (apply_env (run_data_of D d0 defs rules sel outs) t []))
+          (started_tests D (scripts_state D d0 (enabled defs rules sel) outs) reqs)).
+Proof.
+  unfold run. rewrite run_scripts_eq. cbn [app]. rewrite run_tests_eq. reflexivity.
+Qed.
+
+Lemma ran_subseq D scripts outs : forall d, subseq (ran D d scripts outs) scripts.
+Proof.
+  induction scripts as [|ss rest IH]; intros d; cbn [ran]; [constructor|].
+  destruct (snd (d_unit_start D d)); constructor; apply IH.
+Qed.
+
+Lemma started_tests_subseq D reqs : forall d, subseq (started_tests D d reqs) reqs.
+Proof.
+  induction reqs as [|t rest IH]; intros d; cbn [started_tests]; [constructor|].
+  destruct (snd (d_unit_start D d)); constructor; apply IH.
+Qed.
+
+(* cancelled: nothing starts any more *)
+Lemma ran_cancelled D (L : disp_laws D) scripts outs : forall d,
+  d_cancelled D d = true ->
+  ran D d scripts outs = []
+  /\ d_cancelled D (scripts_state D d scripts outs) = true
+  /\ d_failed_scripts D d <= d_failed_scripts D (scripts_state D d scripts outs).
+Proof.
+  induction scripts as [|ss rest IH]; intros d Hc; cbn [ran scripts_state].
+  - repeat split; [assumption|lia].
+  - rewrite (law_start_refused D L d Hc).
+    destruct (IH (fst (d_unit_start D d)) (law_start_sticky D L d Hc)) as [H1 [H2 H3]].
+    repeat split; try assumption. pose proof (law_start_count D L d). lia.
+Qed.
+
+Lemma started_tests_cancelled D (L : disp_laws D) reqs : forall d,
+  d_cancelled D d = true ->
+  started_tests D d reqs = []
+  /\ d_cancelled D (tests_state D d reqs) = true.
+Proof.
+  induction reqs as [|t rest IH]; intros d Hc; cbn [started_tests tests_state].
+  - tauto.
+  - rewrite (law_start_refused D L d Hc). apply IH. apply (law_start_sticky D L d Hc).
+Qed.
+
+Lemma tests_state_count D (L : disp_laws D) reqs : forall d,
+  d_failed_scripts D d <= d_failed_scripts D (tests_state D d reqs).
+Proof.
+  induction reqs as [|t rest IH]; intros d; cbn [tests_state]; [lia|].
+  pose proof (law_start_count D L d). pose proof (IH (fst (d_unit_start D d))). lia.
+Qed.
+
+Lemma scripts_state_count D (L : disp_laws D) scripts outs : forall d,
+  d_failed_scripts D d <= d_failed_scripts D (scripts_state D d scripts outs).
+Proof.
+  induction scripts as [|ss rest IH]; intros d; cbn [scripts_state]; [lia|].
+  pose proof (law_start_count D L d).
+  destruct (snd (d_unit_start D d)).
+  - pose proof (law_finish_count D L (fst (d_unit_start D d)) (script_result outs ss)).
+    pose proof (IH (d_script_finished D (fst (d_unit_start D d)) (script_result outs ss))). lia.
+  - pose proof (IH (fst (d_unit_start D d))). lia.
+Qed.
+
+(* a script that ran and did not succeed is the last one that ran; afterwards the dispatcher
+   is cancelled and has counted a failed script *)
+Lemma ran_failure_last D (L : disp_laws D) scripts outs : forall d pre ss post,
+  ran D d scripts outs = pre ++ ss :: post ->
+  is_success (script_result outs ss) = false ->
+  post = []
+  /\ d_cancelled D (scripts_state D d scripts outs) = true
+  /\ 0 < d_failed_scripts D (scripts_state D d scripts outs).
+Proof.
+  induction scripts as [|s0 rest IH]; intros d pre ss post; cbn [ran scripts_state].
+  - intros H. destruct pre; discriminate.
+  - destruct (snd (d_unit_start D d)).
+    + intros H Hf. destruct pre as [|p pre]; cbn [app] in H; injection H as -> H.
+      * set (d2 := d_script_finished D (fst (d_unit_start D d)) (script_result outs ss)) in *.
+        assert (Hc : d_cancelled D d2 = true) by (apply (law_finish_cancels D L); assumption).
+        destruct (ran_cancelled D L rest outs d2 Hc) as [H1 [H2 H3]].
+        rewrite H1 in H. split; [congruence|]. split; [assumption|].
+        pose proof (law_finish_counted D L (fst (d_unit_start D d)) _ Hf). fold d2 in H0. lia.
+      * eapply IH; eauto.
+    + intros H Hf. eapply IH; eauto.
+Qed.
+
+(* the scripts up to and including the first one that does not succeed *)
+Fixpoint executed (outs : sid -> outcome) (scripts : list setup_script) : list setup_script :=
+  match scripts with
+  | [] => []
+  | ss :: rest => ss :: if is_success (script_result outs ss) then executed outs rest else []
+  end.
+
+Lemma ran_executed D (L : disp_laws D) (V : disp_live D) scripts outs : forall d,
+  d_cancelled D d = false -> ran D d scripts outs = executed outs scripts.
+Proof.
+  induction scripts as [|ss rest IH]; intros d Hc; cbn [ran executed]; [reflexivity|].
+  destruct (live_start D V d Hc) as [H1 H2]. rewrite H1. f_equal.
+  destruct (is_success (script_result outs ss)) eqn:Es.
+  - apply IH. apply (live_finish D V); assumption.
+  - apply (ran_cancelled D L). apply (law_finish_cancels D L). assumption.
+Qed.
+
+Lemma all_succeed_not_cancelled D (V : disp_live D) scripts outs : forall d,
+  d_cancelled D d = false ->
+  (forall ss, In ss scripts -> is_success (script_result outs ss) = true) ->
+  ran D d scripts outs = scripts /\ d_cancelled D (scripts_state D d scripts outs) = false.
+Proof.
+  induction scripts as [|ss rest IH]; intros d Hc Hall; cbn [ran scripts_state]; [tauto|].
+  destruct (live_start D V d Hc) as [H1 H2]. rewrite H1.
+  destruct (IH (d_script_finished D (fst (d_unit_start D d)) (script_result outs ss))) as [H3 H4].
+  - apply (live_finish D V); [assumption|]. apply Hall. left; reflexivity.
+  - intros ss' Hin. apply Hall. right; assumption.
+  - rewrite H3. tauto.
+Qed.
+
+Lemma started_tests_live D (V : disp_live D) reqs : forall d,
+  d_cancelled D d = false -> started_tests D d reqs = reqs.
+Proof.
+  induction reqs as [|t rest IH]; intros d Hc; cbn [started_tests]; [reflexivity|].
+  destruct (live_start D V d Hc) as [H1 H2]. rewrite H1. f_equal. apply IH. assumption.
+Qed.
+
+(* ---- the statements used by Properties/C18.v *)
+
+Definition is_script_event (e : event) : bool :=
+  match e with EvTestStarted _ _ => false | _ => true end.
+
+Lemma run_before_tests D d0 defs rules sel outs reqs :
+  exists evs1 evs2,
+    snd (run D d0 defs rules sel outs reqs) = evs1 ++ evs2
+    /\ forallb is_script_event evs1 = true
+    /\ forallb (fun e => negb (is_script_event e)) evs2 = true
+    /\ evs1 = flat_map (script_events outs) (run_scripts_ran D d0 defs rules sel outs).
+Proof.
+  rewrite run_eq. cbn [snd]. eexists. eexists. split; [reflexivity|]. split; [|split; [|reflexivity]].
+  - induction (run_scripts_ran D d0 defs rules sel outs) as [|ss l IH]; cbn; auto.
+  - induction (started_tests D _ reqs) as [|t l IH]; cbn; auto.
+Qed.
+
+Lemma subseq_map {A B} (f : A -> B) l1 l2 : subseq l1 l2 -> subseq (map f l1) (map f l2).
+Proof. induction 1; cbn [map]; constructor; assumption. Qed.
+
+Lemma run_serial D d0 defs rules sel outs :
+  subseq (map ss_id (run_scripts_ran D d0 defs rules sel outs)) (enabled_ids defs rules sel).
+Proof. unfold run_scripts_ran, enabled_ids. apply subseq_map, ran_subseq. Qed.
+
+Lemma run_failure D (L : disp_laws D) d0 defs rules sel outs reqs s r :
+  In (EvScriptFinished s r) (snd (run D d0 defs rules sel outs reqs)) ->
+  is_success r = false ->
+  (forall t env, ~ In (EvTestStarted t env) (snd (run D d0 defs rules sel outs reqs)))
+  /\ d_exit D (fst (run D d0 defs rules sel outs reqs)) = 105%Z
+  /\ exists pre ss, run_scripts_ran D d0 defs rules sel outs = pre ++ [ss] /\ ss_id ss = s.
+Proof.
+  rewrite run_eq. cbn [fst snd]. intros Hin Hf.
+  apply in_app_or in Hin. destruct Hin as [Hin|Hin].
+  2:{ apply in_map_iff in Hin. destruct Hin as [t [Ht _]]. discriminate. }
+  apply in_flat_map in Hin. destruct Hin as [ss [Hss He]].
+  cbn [script_events In] in He. destruct He as [He|[He|[]]]; [discriminate|].
+  injection He as <- <-.
+  apply in_split in Hss. destruct Hss as [pre [post Hss]].
+  unfold run_scripts_ran in *.
+  destruct (ran_failure_last D L _ outs d0 pre ss post Hss Hf) as [-> [Hc Hn]].
+  destruct (started_tests_cancelled D L reqs _ Hc) as [Hst Hc2].
+  split; [|split].
+  - intros t env Hin. apply in_app_or in Hin. destruct Hin as [Hin|Hin].
+    + apply in_flat_map in Hin. destruct Hin as [ss' [_ He]].
+      cbn [script_events In] in He. destruct He as [He|[He|[]]]; discriminate.
+    + rewrite Hst in Hin. destruct Hin.
+  - apply (law_exit_105 D L). pose proof (tests_state_count D L reqs
+      (scripts_state D d0 (enabled defs rules sel) outs)). lia.
+  - exists pre, ss. tauto.
+Qed.
+
+(* with a live, initially uncancelled dispatcher the scripts that run are exactly the enabled
+   ones up to the first that does not succeed *)
+Lemma run_executed D (L : disp_laws D) (V : disp_live D) d0 defs rules sel outs :
+  d_cancelled D d0 = false ->
+  run_scripts_ran D d0 defs rules sel outs = executed outs (enabled defs rules sel).
+Proof. intros Hc. apply ran_executed; assumption. Qed.
+
+Lemma executed_all outs scripts :
+  (forall ss, In ss scripts -> is_success (script_result outs ss) = true) ->
+  executed outs scripts = scripts.
+Proof.
+  induction scripts as [|ss rest IH]; intros H; cbn [executed]; [reflexivity|].
+  rewrite (H ss (or_introl eq_refl)). f_equal. apply IH. intros ss' Hin. apply H. right; assumption.
+Qed.
+
+Lemma executed_first_failure outs pre ss post :
+  (forall p, In p pre -> is_success (script_result outs p) = true) ->
+  is_success (script_result outs ss) = false ->
+  executed outs (pre ++ ss :: post) = pre ++ [ss].
+Proof.
+  induction pre as [|p pre IH]; intros Hp Hf; cbn [app executed].
+  - rewrite Hf. reflexivity.
+  - rewrite (Hp p (or_introl eq_refl)). f_equal. apply IH; [|assumption].
+    intros p' Hin. apply Hp. right; assumption.
+Qed.
+
+(* the environment a started test receives *)
+Lemma run_data_sorted D d0 defs rules sel outs : data_sorted (run_data_of D d0 defs rules sel outs).
+Proof.
+  unfold run_data_of. intros d Hd. apply in_flat_map in Hd. destruct Hd as [ss [_ Hd]].
+  unfold env_entry in Hd. destruct (finish_script (outs (ss_id ss))) as [r [m|]] eqn:E;
+    cbn [snd] in Hd; [|destruct Hd].
+  destruct Hd as [<-|[]]. cbn [snd]. eapply finish_script_env_sorted; eauto.
+Qed.
+
+Lemma run_test_env D d0 defs rules sel outs reqs t env :
+  In (EvTestStarted t env) (snd (run D d0 defs rules sel outs reqs)) ->
+  env = apply_env (run_data_of D d0 defs rules sel outs) t []
+  /\ forall k, env_lookup k env = scripted_value (run_data_of D d0 defs rules sel outs) t k.
+Proof.
+  rewrite run_eq. cbn [snd]. intros Hin. apply in_app_or in Hin. destruct Hin as [Hin|Hin].
+  - apply in_flat_map in Hin. destruct Hin as [ss' [_ He]].
+    cbn [script_events In] in He. destruct He as [He|[He|[]]]; discriminate.
+  - apply in_map_iff in Hin. destruct Hin as [t' [He _]]. injection He as -> <-.
+    split; [reflexivity|]. intros k. rewrite apply_env_lookup by apply run_data_sorted.
+    destruct (scripted_value _ t k); reflexivity.
+Qed.
+
+(* the data handed to the tests: one entry per script that ran and succeeded, in run order,
+   holding the parsed content of its environment file *)
+Lemma run_data_entries D d0 defs rules sel outs ss m :
+  In (ss, m) (run_data_of D d0 defs rules sel outs) <->
+  In ss (run_scripts_ran D d0 defs rules sel outs)
+  /\ is_success (o_result (outs (ss_id ss))) = true /\ read_env (outs (ss_id ss)) = Some m.
+Proof.
+  unfold run_data_of. rewrite in_flat_map. split.
+  - intros [ss' [Hin He]]. unfold env_entry in He.
+    destruct (finish_script (outs (ss_id ss'))) as [r [m'|]] eqn:E; cbn [snd] in He; [|destruct He].
+    destruct He as [He|[]]. injection He as -> ->. split; [assumption|].
+    unfold finish_script in E. destruct (is_success (o_result (outs (ss_id ss)))); [|discriminate].
+    destruct (read_env (outs (ss_id ss))); [|discriminate]. injection E as _ ->. tauto.
+  - intros [Hin [Hs Hr]]. exists ss. split; [assumption|]. unfold env_entry, finish_script.
+    rewrite Hs, Hr. left; reflexivity.
+Qed.
+
+Lemma first_failure {A} (f : A -> bool) l :
+  (exists x, In x l /\ f x = false) ->
+  exists pre x post, l = pre ++ x :: post /\ (forall p, In p pre -> f p = true) /\ f x = false.
+Proof.
+  induction l as [|a l IH]; intros [x [Hin Hx]]; [destruct Hin|].
+  destruct (f a) eqn:Ea.
+  - destruct Hin as [->|Hin]; [congruence|].
+    destruct IH as [pre [y [post [-> [H1 H2]]]]]; [eauto|].
+    exists (a :: pre), y, post. split; [reflexivity|]. split; [|assumption].
+    intros p [<-|Hp]; auto.
+  - exists [], a, l. split; [reflexivity|]. split; [intros p []|assumption].
+Qed.
+
+Lemma run_failure_live D (L : disp_laws D) (V : disp_live D) d0 defs rules sel outs reqs :
+  d_cancelled D d0 = false ->
+  (exists ss, In ss (enabled defs rules sel) /\ is_success (script_result outs ss) = false) ->
+  (forall t env, ~ In (EvTestStarted t env) (snd (run D d0 defs rules sel outs reqs)))
+  /\ d_exit D (fst (run D d0 defs rules sel outs reqs)) = 105%Z.
+Proof.
+  intros Hc Hex.
+  destruct (first_failure (fun ss => is_success (script_result outs ss)) _ Hex)
+    as [pre [ss [post [He [Hp Hf]]]]].
+  assert (Hin : In (EvScriptFinished (ss_id ss) (script_result outs ss))
+                   (snd (run D d0 defs rules sel outs reqs))).
+  { rewrite run_eq. cbn [snd]. apply in_or_app. left. apply in_flat_map. exists ss.
+    split; [|right; left; reflexivity].
+    rewrite (run_executed D L V) by assumption. rewrite He.
+    rewrite executed_first_failure by assumption. apply in_or_app. right. left; reflexivity. }
+  destruct (run_failure D L d0 defs rules sel outs reqs _ _ Hin Hf) as [H1 [H2 _]]. tauto.
+Qed.
+
+(* everything succeeds: every enabled script runs, every requested test starts *)
+Lemma run_all_succeed D (V : disp_live D) d0 defs rules sel outs reqs :
+  d_cancelled D d0 = false ->
+  (forall ss, In ss (enabled defs rules sel) -> is_success (script_result outs ss) = true) ->
+  snd (run D d0 defs rules sel outs reqs) =
+  flat_map (script_events outs) (enabled defs rules sel)
+  ++ map (fun t => EvTestStarted t (apply_env (flat_map (env_entry outs) (enabled defs rules sel)) t []))
+         reqs.
+Proof.
+  intros Hc Hall. rewrite run_eq. cbn [snd]. unfold run_data_of, run_scripts_ran.
+  destruct (all_succeed_not_cancelled D V _ outs d0 Hc Hall) as [H1 H2].
+  rewrite H1. rewrite (started_tests_live D V) by assumption. reflexivity.
+Qed.
+
+Definition rule_lists_and_matches (rules : list rule) (s : sid) (t : tquery) : Prop :=
+  exists r, In r rules /\ In s (r_setup r) /\ rule_matches r t = true.
+
+Lemma run_env_scope D d0 defs rules sel outs reqs t env :
+  In (EvTestStarted t env) (snd (run D d0 defs rules sel outs reqs)) ->
+  forall k v,
+    env_lookup k env = Some v <->
+    exists pre ss m post,
+      run_data_of D d0 defs rules sel outs = pre ++ (ss, m) :: post
+      /\ rule_lists_and_matches rules (ss_id ss) t
+      /\ env_lookup k m = Some v
+      /\ forall ss' m', In (ss', m') post -> rule_lists_and_matches rules (ss_id ss') t ->
+                        env_lookup k m' = None.
+Proof.
+  intros Hin k v. destruct (run_test_env _ _ _ _ _ _ _ _ _ Hin) as [_ Hl]. rewrite Hl.
+  assert (Hen : forall ss m, In (ss, m) (run_data_of D d0 defs rules sel outs) ->
+                (ss_is_enabled ss t = true <-> rule_lists_and_matches rules (ss_id ss) t)).
+  { intros ss m Hd. apply run_data_entries in Hd. destruct Hd as [Hr _].
+    apply (ss_is_enabled_spec defs rules sel). eapply subseq_In; [apply ran_subseq|exact Hr]. }
+  rewrite scripted_value_some. split.
+  - intros [pre [[ss m] [post [Hd [H1 [H2 H3]]]]]]. exists pre, ss, m, post. cbn [fst snd] in *.
+    split; [assumption|]. split.
+    + apply (Hen ss m); [rewrite Hd; apply in_or_app; right; left; reflexivity|assumption].
+    + split; [assumption|]. intros ss' m' Hp Hr. apply (H3 (ss', m')); [assumption|].
+      cbn [fst]. apply (Hen ss' m'); [|assumption].
+      rewrite Hd. apply in_or_app. right. right. assumption.
+  - intros [pre [ss [m [post [Hd [H1 [H2 H3]]]]]]]. exists pre, (ss, m), post. cbn [fst snd].
+    split; [assumption|]. split.
+    + apply (Hen ss m); [rewrite Hd; apply in_or_app; right; left; reflexivity|assumption].
+    + split; [assumption|]. intros [ss' m'] Hp He. cbn [fst snd] in *. apply (H3 ss' m'); [assumption|].
+      apply (Hen ss' m'); [|assumption]. rewrite Hd. apply in_or_app. right. right. assumption.
+Qed.
+
+(* the mini dispatcher satisfies the laws *)
+Lemma mini_laws : disp_laws mini_disp.
+Proof.
+  constructor; cbn.
+  - intros d ->. reflexivity.
+  - intros d H. exact H.
+  - intros d. lia.
+  - intros d r ->. reflexivity.
+  - intros d r ->. cbn. lia.
+  - intros d r H. destruct (is_success r); [exact H|reflexivity].
+  - intros d r. destruct (is_success r); cbn; lia.
+  - intros d H. apply N.ltb_lt in H. rewrite H. reflexivity.
+Qed.
+
+Lemma mini_live : disp_live mini_disp.
+Proof.
+  constructor; cbn.
+  - intros d ->. split; reflexivity.
+  - intros d r H ->. exact H.
+Qed.
+
+(* summarize_final on the script counters *)
+Lemma summarize_scripts_failed initial finished failed exec_failed timed_out :
+  0 < failed + exec_failed + timed_out ->
+  summarize_scripts initial finished failed exec_failed timed_out = 1.
+Proof. intros H. unfold summarize_scripts. apply N.ltb_lt in H. rewrite H. reflexivity. Qed.
